@@ -55,9 +55,11 @@ func (m *mapRange) next(scope *scope, loopVarName string) bool {
 		m.cur++
 		if _, ok := m.mapVal.Pairs[key]; ok { // ensure value hasn't been deleted
 			scope.update(loopVarName, &stringVal{V: key})
+			verifMap("RangeNext", m.mapVal, key)
 			return true
 		}
 	}
+	verifMap("RangeEnd", m.mapVal, "")
 	return false
 }
 
